@@ -133,6 +133,21 @@ func parseOnly(c c16Case) (obs, bad string) {
 func c16(r *ev.Run) {
 	r.Scenario("round-trip", func(raw []byte) (string, string) { return urlRoundTrip(unjson[c16Case](raw)) })
 	r.Scenario("parse-only", func(raw []byte) (string, string) { return parseOnly(unjson[c16Case](raw)) })
+	{
+		var cs []c16Case
+		for i, iss := range []string{"Example", "My Company", "a/b?c#d", "100%"} {
+			for j, acc := range []string{"alice@example.com", "bob smith", "x:y"} {
+				cs = append(cs, c16Case{Kind: []string{"totp", "hotp"}[(i+j)%2], Issuer: iss, Account: acc, Secret: "JBSWY3DPEHPK3PXP", Digits: []int{6, 8, 0, 10}[i], Algo: j, Period: []uint64{30, 60, 0}[j]})
+			}
+		}
+		afterWarmups(r, "round-trip-after-other-operations", cs, urlRoundTrip)
+		var ps []c16Case
+		for _, v := range []string{"6", "8", "10", "255", "256", "-1", "0x6", "06", "abc", "4294967302"} {
+			ps = append(ps, c16Case{Kind: "parse", RawURL: "otpauth://totp/I:a?secret=JBSWY3DPEHPK3PXP&issuer=I&digits=" + v, Field: "digits", Value: v},
+				c16Case{Kind: "parse", RawURL: "otpauth://totp/I:a?secret=JBSWY3DPEHPK3PXP&issuer=I&period=" + v, Field: "period", Value: v})
+		}
+		afterWarmups(r, "parse-only-after-other-operations", ps, parseOnly)
+	}
 	if ReplayOnly {
 		return
 	}
